@@ -4,6 +4,7 @@
 #![allow(clippy::all)]
 #![allow(unused)]
 pub mod util;
+pub mod dump;
 include!(concat!(env!("OUT_DIR"), "/dispatch.rs"));
 
 use std::io::{BufRead, Write};
